@@ -136,7 +136,11 @@ func TiePrograms() []Prog {
 	nested := "module Outer\n" + indent(klass("Inner", "Report", "inner", "1"), 1) + "\n" + indent(klass("", "Report", "outer", "1"), 1) + "\nend\n" +
 		"x1 = Outer::Inner::Report.new\nx2 = Outer::Report.new\nx1.title\nx2.title\n"
 	samesig := "class Alpha\n  def run(a)\n    a\n  end\nend\nclass Beta\n  def run(a)\n    a\n  end\nend\nmodule Gamma\n  def self.run(a)\n    a\n  end\nend\ndef run(a)\n  a\nend\nAlpha.new.run(1)\nBeta.new.run(1)\nGamma.run(1)\nrun(1)\n"
-	return []Prog{{Name: "./g_tie_0.rb", Src: two}, {Name: "./g_tie_1.rb", Src: three}, {Name: "./g_tie_2.rb", Src: nested}, {Name: "./g_tie_3.rb", Src: samesig}}
+	// same-named classes of two namespaces with different superclasses and mixins (--extends, ancestor walks)
+	parents := "class Base\n  def shared\n    1\n  end\nend\nclass Other\n  def shared\n    \"s\"\n  end\nend\nmodule Mixa\n  def mixed\n    1\n  end\nend\nmodule Mixb\n  def mixed\n    \"s\"\n  end\nend\n" +
+		"module Aa\n  class Report < Base\n    include Mixa\n  end\nend\nmodule Bb\n  class Report < Other\n    include Mixb\n    extend Mixa\n  end\nend\n" +
+		"pa = Aa::Report.new\npb = Bb::Report.new\ndbtp pa.shared\ndbtp pb.shared\ndbtp pa.mixed\ndbtp pb.mixed\n"
+	return []Prog{{Name: "./g_tie_0.rb", Src: two}, {Name: "./g_tie_1.rb", Src: three}, {Name: "./g_tie_2.rb", Src: nested}, {Name: "./g_tie_3.rb", Src: samesig}, {Name: "./g_tie_4.rb", Src: parents}}
 }
 
 // OddLiteralPrograms place a string literal that spans two lines wherever ti quotes source text in a
